@@ -113,7 +113,7 @@ class C09(CheckBase):
             li = rng.choice(empties)      # framing of an empty line is its own corner
         payload = f['lines'][li][1]
         plen = len(payload)
-        kinds = ['len_small', 'len_big', 'len_off', 'token', 'tail_token']
+        kinds = ['len_small', 'len_big', 'len_off', 'token', 'tail_token', 'tail_token']
         kinds += ['start'] if be else ['term']
         if plen == 0:
             # an empty line has only framing to damage
@@ -161,7 +161,8 @@ class C09(CheckBase):
         return {'op': 'set', 'line': li, 'off': pstart + rng.below(plen), 'value': rng.choice(pool), 'aim': 'token'}
 
     def gen_case(self, rng, tier, index):
-        d = rng.choice(bp.DIALECT_NAMES)
+        # the dialects with special two-byte tokens get extra weight: their operand handling is extra code
+        d = rng.choice(bp.DIALECT_NAMES + ['PDP11', 'ARM', 'Mac'])
         listo = rng.weighted([(3, 7), (2, 0), (3, rng.below(8))])
         kind = rng.weighted([(5, 'prefix'), (2, 'rfail'), (1, 'chunk'), (4, 'corrupt'), (3, 'seq')]
                             + ([(3, 'prefix_all'), (2, 'corrupt_all')] if tier == 'thorough' else [(1, 'prefix_all'), (1, 'corrupt_all')]))
